@@ -91,3 +91,186 @@ def harnesses(tier):
             add([("M", 2, False)] + [(l, _grp(l, i + 1), False) for i, l in enumerate(seq)], sep=sep, csep=csep, tagx=tagx)
     hs.append({"name": "twin/S_after_C", "fn": "h_sem_twin", "twin": True})
     return hs
+
+
+# ------------------------------------------------------------------ lexical ----
+WSP = " \t\n\x0c\r"
+CW = WSP + ","
+DIG = "0123456789"
+
+
+def _num_value(ctx, shape, ords):
+    """oracle value of a numeral of the given shape from its character codes"""
+    i = 0
+    sign = None
+    if shape[i] == "S":
+        sign = ords[i]
+        i += 1
+    mant = 0
+    fracdigits = 0
+    seen_dot = False
+    while i < len(shape) and shape[i] in "D.":
+        if shape[i] == ".":
+            seen_dot = True
+        else:
+            mant = mant * 10 + (ords[i] - 48)
+            if seen_dot:
+                fracdigits += 1
+        i += 1
+    val = mant
+    e10 = 0
+    esign = None
+    if i < len(shape) and shape[i] == "E":
+        i += 1
+        if i < len(shape) and shape[i] == "s":
+            esign = ords[i]
+            i += 1
+        while i < len(shape):
+            e10 = e10 * 10 + int(shape[i])
+            i += 1
+    from fractions import Fraction
+    down = ctx.num(Fraction(1, 10 ** (fracdigits + e10)))
+    up = ctx.num(Fraction(10 ** e10, 10 ** fracdigits))
+    if esign is None:
+        val = val * up
+    else:
+        val = ctx.ite(ctx.eq(esign, 45), val * down, val * up)
+    if sign is not None:
+        val = ctx.ite(ctx.eq(sign, 45), 0 - val, val)
+    return val
+
+
+def _shape_alphabets(shape):
+    out = []
+    for ch in shape:
+        out.append({"D": DIG, "S": "+-", ".": ".", "E": "eE", "s": "+-"}.get(ch, ch))
+    return out
+
+
+def h_lex(ctx, template):
+    """template items: ['lit', text] | ['w', n] (wsp run) | ['W', n] (comma-wsp run: one comma allowed, first position)
+    | ['num', shape] | ['flag'] ; literal command letters delimit commands"""
+    S = ctx.S
+    alph = []
+    layout = []   # (kind, start, length, extra)
+    for it in template:
+        k = it[0]
+        if k == "lit":
+            for ch in it[1]:
+                alph.append(ch)
+            layout.append(("lit", len(alph) - len(it[1]), len(it[1]), it[1]))
+        elif k == "w":
+            layout.append(("ws", len(alph), it[1], None))
+            alph += [WSP] * it[1]
+        elif k == "W":
+            layout.append(("ws", len(alph), it[1], None))
+            alph += [CW] + [WSP] * (it[1] - 1)
+        elif k == "num":
+            layout.append(("num", len(alph), len(it[1]), it[1]))
+            alph += _shape_alphabets(it[1])
+        elif k == "flag":
+            layout.append(("flag", len(alph), 1, None))
+            alph.append("01")
+    text = ctx.chars("s", alph)
+    ords = ctx.ordinals(text)
+    # abstract commands
+    abstract = []
+    vals = []
+    letter = None
+
+    def flush():
+        if letter is None:
+            return
+        kinds = G.ARGS[letter.upper()]
+        groups = []
+        v = list(vals)
+        n = sum(2 if k == "p" else 1 for k in kinds)
+        while v:
+            g = []
+            chunk, v = v[:n], v[n:]
+            j = 0
+            for k in kinds:
+                if k == "p":
+                    g.append((chunk[j], chunk[j + 1]))
+                    j += 2
+                else:
+                    g.append(chunk[j])
+                    j += 1
+            groups.append(g)
+        abstract.append((letter, groups))
+
+    flagvals = []
+    for kind, start, length, extra in layout:
+        if kind == "lit":
+            for ch in extra:
+                if ch in G.LETTERS:
+                    flush()
+                    letter = ch
+                    vals = []
+        elif kind == "num":
+            vals.append(_num_value(ctx, extra, ords[start:start + length]))
+        elif kind == "flag":
+            vals.append(ords[start] - 48)
+    flush()
+    osegs = G.Interp().run(abstract)
+    with G.ArcStub(S) as stub:
+        p = S.Path(text)
+        segs = list(p)
+    # flags are symbolic here: compare them as numbers
+    for s_, o in zip(segs, osegs):
+        if o["kind"] == "Arc" and hasattr(s_, "_symx_args"):
+            rx, ry, rot, fa, fs = s_._symx_args
+            orx, ory, orot, ofa, ofs = o["arc"]
+            ctx.claim("lex arc flags", ctx.and_(ctx.eq(1 if fa else 0, ofa), ctx.eq(1 if fs else 0, ofs)))
+            o["arc"] = (orx, ory, orot, fa, fs)
+    G.compare(ctx, segs, osegs, "lex")
+
+
+def h_lex_twin(ctx):
+    """wrong oracle: '1-2' read as a single number pair missing -> expects ValueError-free 1 segment"""
+    S = ctx.S
+    text = ctx.chars("s", ["M", DIG, "+-", DIG])
+    ords = ctx.ordinals(text)
+    p = S.Path(text)
+    ctx.claim("twin", ctx.eq(p[0].end.y, ords[3] - 48))   # WRONG: ignores the sign
+
+
+NUMS = ["D", "DD", "D.D", ".D", "SD", "S.D", "SD.D", "DE2", "D.DEs1", "SDEs2"]
+
+
+def lex_templates(tier):
+    T = []
+    # separators of every kind between the numbers of a pair and between commands
+    for n1 in NUMS:
+        for n2 in (NUMS if tier == "thorough" else ["D", "SD", ".D", "D.D"]):
+            T.append(("pair/%s_%s" % (n1, n2), [["lit", "M"], ["num", n1], ["W", 1], ["num", n2], ["lit", "L"], ["w", 1], ["num", n2], ["W", 2], ["num", n1]]))
+    # separator-free adjacency: sign starts a new number, second dot starts a new number
+    for n1 in ["D", "D.D", ".D", "DE2"]:
+        for n2 in ["SD", "S.D"]:
+            T.append(("adj_sign/%s_%s" % (n1, n2), [["lit", "M"], ["num", n1], ["num", n2], ["lit", "l"], ["num", n2], ["num", n2]]))
+    for n1 in ["D.D", ".D", "SD.D"]:
+        T.append(("adj_dot/%s" % n1, [["lit", "M"], ["num", n1], ["num", ".D"], ["lit", "L"], ["num", n1], ["num", ".D"], ["num", ".D"], ["num", ".D"]]))
+    # whitespace around commands, implicit repetition, H/V
+    T.append(("ws_cmd", [["w", 1], ["lit", "M"], ["w", 2], ["num", "D"], ["W", 1], ["num", "D"], ["w", 1], ["lit", "h"], ["num", "SD"], ["W", 1], ["num", "D"], ["w", 1],
+                         ["lit", "V"], ["w", 1], ["num", "D"], ["lit", "z"], ["w", 1]]))
+    T.append(("repeat", [["lit", "M"], ["num", "D"], ["W", 1], ["num", "D"], ["W", 1], ["num", "D"], ["W", 1], ["num", "D"], ["lit", "q"], ["num", "D"], ["num", "SD"],
+                         ["W", 1], ["num", "D"], ["num", "SD"], ["lit", "t"], ["num", "D"], ["num", "SD"], ["num", "SD"], ["num", "SD"]]))
+    # arcs with packed / separated flags
+    for style, sepf in (("packed", []), ("comma", [["W", 1]]), ("space2", [["w", 2]])):
+        T.append(("arcflags/%s" % style, [["lit", "M"], ["num", "D"], ["W", 1], ["num", "D"], ["lit", "A"], ["num", "D"], ["W", 1], ["num", "D"], ["W", 1], ["num", "SD"], ["W", 1],
+                                          ["flag"]] + sepf + [["flag"]] + sepf + [["num", "D"], ["W", 1], ["num", "D"]]))
+    T.append(("arcflags/packed_all", [["lit", "M"], ["num", "D"], ["W", 1], ["num", "D"], ["lit", "a"], ["num", "D"], ["W", 1], ["num", "D"], ["W", 1], ["num", "D"], ["W", 1],
+                                      ["flag"], ["flag"], ["num", ".D"], ["num", ".D"], ["W", 1], ["num", "D"], ["W", 1], ["num", "D"], ["W", 1], ["num", "D"], ["W", 1],
+                                      ["flag"], ["W", 1], ["flag"], ["num", "SD"], ["num", "SD"]]))
+    return T
+
+
+_sem_harnesses = harnesses
+
+
+def harnesses(tier):
+    hs = _sem_harnesses(tier)
+    for name, t in lex_templates(tier):
+        hs.append({"name": "lex/" + name, "fn": "h_lex", "params": {"template": t}, "weight": 5})
+    hs.append({"name": "twin/lex_sign", "fn": "h_lex_twin", "twin": True})
+    return hs
